@@ -144,7 +144,9 @@ CATALOGUE = [
     # ------------------------------------------------------------------ C11
     m('c11-scrub-before-ivar', 'C11', 'break', S2, [("    newflux = aesthetics(newflux, newivar, method=amethod)\n", "    newflux = aesthetics(newflux, newivar, method=amethod)\n    newivar[goodpts] = 1.0 / newivar[goodpts]\n")], 'C11.SCRUB'),
     m('c11-zshift-sign', 'C11', 'break', S1, [("combine1fiber(rowloglam-logshift[iobj],", "combine1fiber(rowloglam+logshift[iobj],")], 'C11.ZSHIFT'),
-    m('c11-keep-size-guard', 'C11', 'keep', S2, [("            if goodpts.any():\n                newflux[~goodpts] = newflux[goodpts].mean()", "            if goodpts.sum() > 0:\n                newflux[~goodpts] = newflux[goodpts].mean()")]),
+    m('c11-keep-size-guard', 'C11', 'keep', S2, [("            if goodpts.any():\n                newflux[badpts] = newflux[goodpts].mean()", "            if goodpts.sum() > 0:\n                newflux[badpts] = newflux[goodpts].mean()")]),
+    m('c11-aesth-unguarded-mean', 'C11', 'break', S2, [("            if goodpts.any():\n                newflux[badpts] = newflux[goodpts].mean()", "            newflux[badpts] = newflux[goodpts].mean()")], 'C11.EMPTY-AGG'),
+    m('c17-aesth-mean-negative-ivar', 'C17', 'break', S2, [("                newflux[badpts] = newflux[goodpts].mean()", "                newflux[~goodpts] = newflux[goodpts].mean()")], 'C17.AESTH'),
     # ------------------------------------------------------------------ C12
     m('c12-usecaps-preset', 'C12', 'break', W, [("r['balkans']['USE_CAPS'] = (1 << r['blist']['NCAPS']) - 1", "r['balkans']['USE_CAPS'] = (1 << r['blist']['NCAPS'])")], 'C12.SLICES'),
     m('c12-or-not-and', 'C12', 'break', M, [("            in_polygon &= is_in_cap(", "            in_polygon |= is_in_cap(")], 'C12.AND-ALL'),
